@@ -61,11 +61,20 @@
                                 iterations wherever the white space sits; what it returns; from_string
                                 with it.
   * `C08_read_steps`            steps of the decoder ≤ 3·|bs| + 2.
+  Round 4 (numbers stored as text, Model/PyInt.lean; exact topics of every URN namespace):
+  * `C08_int_digit_limit`       `int()` on an ASCII string with more than 4300 digit characters: ValueError.
+  * `C08_xl_documented`, `C08_xl_digit_limit`   the `xl` setter: a length or MagnetError.
+  * `C08_creation_date_not_int` a creation date that is not a bencoded integer (digit strings of any
+                                length included) is never converted: MetainfoError if truthy.
+  * `C08_xt_foreign`, `C08_xt_multiple`, `C08_xt_single_foreign`
+                                topics outside btih (urn:btmh: …), several topics of any kinds, a
+                                v2-only link: MagnetError — never an index error.
   Partial: CPython's actual time and memory are measured by the harness, not proved.
 -/
 import Torf.Lemmas.Untrusted
 import Torf.Lemmas.QueryString
 import Torf.Lemmas.PyStrip
+import Torf.Lemmas.PyInt
 import Torf.Lemmas.ValidateSingle
 import Torf.Properties.C07
 namespace Torf.C08
@@ -676,6 +685,96 @@ theorem C08_magnet_documented_strip (o : MagnetOracle) (pct : String → String)
     (∃ m, fromStringS o pct {} uri = .ok m) ∨ fromStringS o pct {} uri = .error .magnet ∨
     fromStringS o pct {} uri = .error .url :=
   C08_magnet_documented o pct _
+
+/-! ### round 4: numbers stored as text; exact topics of every URN namespace -/
+
+/-- **`int()` and the digit limit**: an ASCII string with more than `lim` (= 4300) digit characters
+    — leading zeros count; sign, white space and underscores do not — is refused (ValueError),
+    whatever else it contains. -/
+theorem C08_int_digit_limit (lim : Nat) (s : List Char) (h : lim < (s.filter isAsciiDigit).length) :
+    pyIntAscii lim s = none :=
+  pyIntAscii_limit lim s h
+
+/-- non-vacuity and the corner cases of the grammar: `1_000`, signs, surrounding white space and
+    leading zeros are accepted; `_1`, `1_`, `1__0`, `0x10`, `1e5`, inner spaces, the empty string
+    and a lone sign are refused -/
+example : pyIntAscii 4300 "1_000".toList = some 1000 ∧ pyIntAscii 4300 " -007\n".toList = some (-7) ∧
+    pyIntAscii 4300 "+5".toList = some 5 ∧ pyIntAscii 4300 "_1".toList = none ∧
+    pyIntAscii 4300 "1_".toList = none ∧ pyIntAscii 4300 "1__0".toList = none ∧
+    pyIntAscii 4300 "0x10".toList = none ∧ pyIntAscii 4300 "1e5".toList = none ∧
+    pyIntAscii 4300 "5 5".toList = none ∧ pyIntAscii 4300 "".toList = none ∧
+    pyIntAscii 4300 "-".toList = none ∧ pyIntAscii 3 "0001".toList = none ∧
+    pyIntAscii 3 "0_0_1".toList = some 1 := by decide +kernel
+
+/-- the `xl` setter: a length or MagnetError, whatever `int()` answers … -/
+theorem C08_xl_documented (o : MagnetOracle) (v : String) :
+    (∃ n, setXl o v = .ok n) ∨ setXl o v = .error .magnet := by
+  cases h : setXl o v with
+  | ok n => left; exact ⟨n, rfl⟩
+  | error e => right; rw [setXl_err h]
+
+/-- … and MagnetError for every ASCII value with more than 4300 digits (the ValueError of the digit
+    limit is caught by the setter) -/
+theorem C08_xl_digit_limit (o : MagnetOracle) (oracle : String → Option Int) (v : String)
+    (ho : o.intOf = intOfM 4300 oracle) (ha : isAsciiStr v.toList = true)
+    (h : 4300 < (v.toList.filter isAsciiDigit).length) : setXl o v = .error .magnet := by
+  unfold setXl
+  rw [ho]
+  unfold intOfM
+  rw [if_pos ha, C08_int_digit_limit 4300 _ h]
+
+/-- **A `creation date` that is not a bencoded integer is never converted**: any byte string — a
+    string of digits of any length included — list or dict is MetainfoError when it is truthy and
+    "no creation date" when it is empty.  (The creation-date setter only converts `int`/`float`;
+    `read_stream` passes the raw decoded value.) -/
+theorem C08_creation_date_not_int (env : Env) (enc : List (Bytes × BVal)) (md : Items) (v : BVal)
+    (hv : lookup ReadStream.kCreationDate enc = some v) (hni : ∀ i, v ≠ .int i) :
+    creationDateStep env enc md =
+      if ReadStream.truthy v then .error .metainfo
+      else .ok (Codec.popStr "creation date" (ReadStream.ensureInfo md)) := by
+  unfold creationDateStep
+  rw [hv]
+  dsimp only
+  cases v with
+  | int i => exact absurd rfl (hni i)
+  | bytes b => unfold setCreationDateU; dsimp only; by_cases ht : ReadStream.truthy (.bytes b) = true <;> simp [ht, catchCreationDate]
+  | list l => unfold setCreationDateU; dsimp only; by_cases ht : ReadStream.truthy (.list l) = true <;> simp [ht, catchCreationDate]
+  | dict kvs => unfold setCreationDateU; dsimp only; by_cases ht : ReadStream.truthy (.dict kvs) = true <;> simp [ht, catchCreationDate]
+
+/-- **Every exact topic outside the `btih` namespace is MagnetError**: a value that is neither a
+    bare 40-hex / 32-base32 info hash nor starts with `urn:btih:` (any ASCII case) — `urn:btmh:…`
+    (BitTorrent v2 multihash), `urn:sha1:`, `urn:ed2k:`, `urn:tree:tiger:`, `urn:md5:`, `urn:aich:`,
+    `urn:kzhash:`, `urn:bitprint:` … -/
+theorem C08_xt_foreign (v : String) (h1 : matchesInfohash v.toList = false)
+    (h2 : prefixCI "urn:btih:".toList v.toList = none) : setXt v = .error .magnet := by
+  unfold setXt
+  rw [h1]
+  simp only [Bool.false_eq_true, if_false]
+  rw [h2]
+
+example : matchesInfohash "urn:btmh:1220caf1e1c30e81cb361b9ee167c4aa64228a7fa4fa9f6105232b28ad099f3a302e".toList = false ∧
+    prefixCI "urn:btih:".toList "urn:btmh:1220caf1e1c30e81cb361b9ee167c4aa64228a7fa4fa9f6105232b28ad099f3a302e".toList = none ∧
+    prefixCI "urn:btih:".toList "urn:sha1:YNCKHTQCWBTRNJIV4WNAE52SJUQCZO5C".toList = none ∧
+    prefixCI "urn:btih:".toList "URN:ED2K:354b15e68fb8f36d7cd88ff94116cdc1".toList = none := by decide +kernel
+
+/-- **Several exact topics are MagnetError, whatever they are** — v1 + v2 (hybrid), v2 + v2, any
+    order, any multiplicity ≥ 2: the multiplicity test comes before any topic is looked at … -/
+theorem C08_xt_multiple (o : MagnetOracle) (q : List (String × List String)) (xts : List String)
+    (h : qlookup "xt" q = some xts) (hl : 1 < xts.length) : withXt o q = .error .magnet := by
+  unfold withXt
+  rw [h]
+  dsimp only
+  rw [if_pos hl]
+
+/-- … and a single topic outside `btih` is MagnetError before any other parameter is looked at
+    (a v2-only link): never an index or key error. -/
+theorem C08_xt_single_foreign (o : MagnetOracle) (q : List (String × List String)) (xt : String)
+    (h : qlookup "xt" q = some [xt]) (h1 : matchesInfohash xt.toList = false)
+    (h2 : prefixCI "urn:btih:".toList xt.toList = none) : withXt o q = .error .magnet := by
+  unfold withXt
+  rw [h]
+  dsimp only
+  rw [if_neg (by simp), C08_xt_foreign xt h1 h2]
 
 /-- The decoder is linear: one unit per input byte, per iteration of the outer loop and per
     iteration of the inner pop loop add up to at most 3·|bs| + 2. -/
